@@ -268,10 +268,16 @@ def build(ctx):
     for dec in (None, "IOU", "DSC", "ASSD"):
         ctx.unit(f"evaluate_matched_instance[{dec}]", lambda dec=dec: unit_eval_matched(ctx, dec, ["DSC", "IOU", "ASSD"]))
     ctx.unit("evaluate_matched_instance[RVD|all]", lambda: unit_eval_matched(ctx, "IOU", ["DSC", "IOU", "ASSD", "RVD"]))
+    # tp/fp/fn count label-matched instances: "matched" means what the relabelling after matching made equal (C04), regenerated here
+    include_stage(ctx, "C04")
+    # the decision metric / threshold the evaluation receives is the configured one, per call and per group (C12), regenerated here
+    include_stage(ctx, "C12")
     ctx.add_bounded("c02-enum", "c02.bounded")
 
 
 def concretise(ctx, o, r):
+    if (o.info or {}).get("stage"):
+        return stage_concretise(ctx, o, r)
     m = r.get("model") or {}
     gi = lambda k, d=0: model_int(m.get(k, d))
     if o.replay == "c02.result":
